@@ -67,3 +67,8 @@ pub fn std_mutex_lock<T: ?Sized>(m: &std::sync::Mutex<T>) -> std::sync::LockResu
         Err(std::sync::TryLockError::WouldBlock) => panic!("std::sync::Mutex::lock would block forever (single-threaded harness)"),
     }
 }
+
+/// `eprintln!` / `println!` inside the dependency crates (Kani only overrides the print macros of the
+/// crate under verification): diagnostics are not observed, and `io::Write::write_fmt`'s adapter
+/// drags `io::Error` drop glue into every call site.
+pub fn io_print_noop(_args: std::fmt::Arguments<'_>) {}
